@@ -56,6 +56,10 @@ fn main() {
         "conc" => conc::run(&args[2]),
         "queue" => queue::run(&args[2]),
         "qconc" => conc::run_queue(&args[2]),
+        "stress" => {
+            out::start_watchdog();
+            conc::stress()
+        }
         "json" => json::run(),
         "text" => text::run(),
         other => {
